@@ -51,7 +51,7 @@ def finish_acc(acc):
 def run_sessions(spec: dict, prop: str, make_monitors: Callable[[], list],
                  cfg_fn: Callable[[random.Random], gen.Config], nsteps: tuple[int, int],
                  weights=None, refusal_rate: float = 1.0, budget_s: float | None = None,
-                 weights_fn=None) -> dict:
+                 weights_fn=None, opgen=None, history_share: float = 0.0) -> dict:
     rng = random.Random(spec["seed"])
     acc = new_acc()
     t0 = time.time()
@@ -64,10 +64,17 @@ def run_sessions(spec: dict, prop: str, make_monitors: Callable[[], list],
         sseed = rng.randrange(1 << 30)
         monitors = make_monitors()
         w = weights_fn(rng) if weights_fn else weights
+        if history_share and rng.random() < history_share:
+            # history-heavy session: runs of undos, edits after undos, redos
+            w = dict(w or {})
+            w.update(rng.choice([{"undo": 11, "redo": 4}, {"undo": 9, "redo": 9},
+                                 {"undo": 8, "redo": 2}]))
+            acc["counters"]["history-heavy-sessions"] = \
+                acc["counters"].get("history-heavy-sessions", 0) + 1
         ns = rng.randint(*nsteps)
         try:
             sess = session.run_random_session(cfg, monitors, sseed, ns, weights=w,
-                                              refusal_rate=refusal_rate)
+                                              refusal_rate=refusal_rate, opgen=opgen)
         except Exception:
             import traceback
 
@@ -97,3 +104,81 @@ def replay_sessions(doc: dict, make_monitors) -> list[dict]:
     cfg = gen.Config.from_json(doc["config"])
     sess = session.run_ops_session(cfg, make_monitors(), doc["ops"])
     return sess.violations
+
+
+# ----------------------------------------------------------------- repository test-suite as workload
+def pytest_spec() -> dict:
+    return {"kind": "pytest", "seed": 0}
+
+
+def run_pytest_shard(spec: dict, prop: str, tests: list[str] | None = None) -> dict:
+    """Run the repository's own tests (unedited) under fv.pytest_plugin in a subprocess and
+    return what the plugin's monitors observed for `prop`. The tests are a workload only:
+    their own pass/fail status is reported as a counter, never as a verdict."""
+    import glob
+    import json
+    import os
+    import shutil
+    import subprocess
+    import sys
+
+    from .. import env
+
+    acc = new_acc()
+    wd = env.workdir(f"pytest-{prop}")
+    out = wd / "plugin"
+    envv = dict(os.environ)
+    envv["FV_PLUGIN_OUT"] = str(out)
+    envv["FV_REPO"] = str(env.REPO)
+    envv["PYTHONPATH"] = str(env.VERIF) + os.pathsep + str(env.REPO / "src")
+    envv[env.GUARD] = "1"
+    cmd = [sys.executable, "-m", "pytest", "-q", "-p", "no:cacheprovider", "-p",
+           "fv.pytest_plugin", "-n", "4", "--timeout=600", f"--basetemp={wd / 'tmp'}"]
+    cmd += tests or ["tests"]
+    try:
+        p = subprocess.run(cmd, cwd=str(env.REPO), env=envv, capture_output=True, text=True,
+                           timeout=1500)
+        files = glob.glob(str(out) + ".gw*.json") or glob.glob(str(out) + ".main.json")
+        if not files:
+            acc["counters"]["harness_errors"] = 1
+            acc["extra"]["harness_error_samples"] = [{"tb": (p.stdout + p.stderr)[-1500:]}]
+            return finish_acc(acc)
+        for f in files:
+            d = json.load(open(f))
+            acc["counters"]["pytest-tests"] = acc["counters"].get("pytest-tests", 0) + d["tests"]
+            acc["counters"]["pytest-observer-errors"] = \
+                acc["counters"].get("pytest-observer-errors", 0) + d["errors"]
+            for k, v in d["windows"].items():
+                if k.startswith(prop + "-") or k.startswith(("ok-", "raised-")):
+                    acc["counters"][f"pytest-{k}"] = acc["counters"].get(f"pytest-{k}", 0) + v
+                    if k.endswith("comparisons") and k.startswith(prop):
+                        acc["evaluations"] += v
+                if k.startswith(("ok-", "raised-")):
+                    acc["keys"].add(f"pytest/{k}")
+            ev = d["contracts"].get("evaluations", {}).get(prop, 0)
+            if ev:
+                acc["counters"]["pytest-contract-evaluations"] = \
+                    acc["counters"].get("pytest-contract-evaluations", 0) + ev
+                acc["evaluations"] += ev
+            if d["contracts"].get("install_error"):
+                acc["counters"]["harness_errors"] = 1
+                acc["extra"]["harness_error_samples"] = [{"tb": d["contracts"]["install_error"]}]
+            for v in d["violations"]:
+                if v["property"] != prop:
+                    continue
+                acc["violations"].append({
+                    "clause": v["clause"], "what": f"[{v['test']}] {v['what']}", "key": v["key"],
+                    "replay": {"kind": "pytest", "test": v["test"]}})
+        tail = (p.stdout or "").strip().splitlines()[-1:] or [""]
+        acc["extra"]["pytest_summary"] = tail[0][:200]
+    except subprocess.TimeoutExpired:
+        acc["counters"]["harness_errors"] = 1
+        acc["extra"]["harness_error_samples"] = [{"tb": "pytest workload timed out"}]
+    finally:
+        shutil.rmtree(wd, ignore_errors=True)
+    return finish_acc(acc)
+
+
+def replay_pytest(doc: dict, prop: str) -> list[dict]:
+    res = run_pytest_shard({"kind": "pytest"}, prop, tests=[doc["test"]])
+    return res["violations"]
